@@ -20,6 +20,8 @@ const (
 	OpMoveReg     = 100
 	OpBranchEqImm = 81
 	OpAddImm64    = 149
+	OpStoreImmU8  = 30
+	OpLoadU8      = 52
 
 	// RWBase is where the read-write data segment starts when the read-only segment is empty.
 	RWBase = 0x20000
@@ -79,6 +81,16 @@ func (a *Asm) Ecalli(id uint32) {
 
 // MoveReg emits move_reg dst, src.
 func (a *Asm) MoveReg(dst, src int) { a.op(OpMoveReg, byte(src<<4|dst)) }
+
+// StoreImmU8 emits store_imm_u8 [addr], v (four-octet address immediate, one-octet value).
+func (a *Asm) StoreImmU8(addr uint32, v byte) {
+	a.op(OpStoreImmU8, 4, byte(addr), byte(addr>>8), byte(addr>>16), byte(addr>>24), v)
+}
+
+// LoadU8 emits load_u8 reg, [addr] (four-octet address immediate).
+func (a *Asm) LoadU8(reg int, addr uint32) {
+	a.op(OpLoadU8, byte(reg), byte(addr), byte(addr>>8), byte(addr>>16), byte(addr>>24))
+}
 
 // Trap emits trap.
 func (a *Asm) Trap() { a.op(OpTrap) }
